@@ -189,7 +189,8 @@ class Bus (objects.DBusObject):
         for rule_id in proto.matchRules:
             self.router.delMatch(rule_id)
 
-        for busName in proto.busNames.keys():
+        # (names owned and names waited for; ReleaseName edits the dictionary)
+        for busName in list(proto.busNames.keys()):
             self.dbus_ReleaseName(busName, proto.uniqueName)
 
         if proto.uniqueName:
@@ -408,26 +409,32 @@ class Bus (objects.DBusObject):
                 owner.busNames[name] = allow_replacement
 
                 return client.NAME_ALREADY_OWNER
-            else:
-                if not replace_existing:
-                    return client.NAME_IN_USE
 
-                if owner.busNames[name]:
-                    del queue[0]
-                    queue.insert(0, caller)
-                    del owner.busNames[name]
-                    caller.busNames[name] = allow_replacement
-                    self.sendSignal(owner, 'NameLost', 's', name)
-                    signalAcq(owner.uniqueName)
-                    return client.NAME_ACQUIRED
-                else:
-                    if do_not_queue:
-                        return client.NAME_IN_USE
+            if replace_existing and owner.busNames[name]:
+                # The owner permits replacement and the caller asked for it.
+                # The caller gives up any place it had in the queue
+                if caller in queue:
+                    queue.remove(caller)
+                del queue[0]
+                queue.insert(0, caller)
+                del owner.busNames[name]
+                caller.busNames[name] = allow_replacement
+                self.sendSignal(owner, 'NameLost', 's', name)
+                signalAcq(owner.uniqueName)
+                return client.NAME_ACQUIRED
 
-                    queue.append(caller)
-                    caller.busNames[name] = allow_replacement
+            if do_not_queue:
+                # The caller neither owns nor waits for the name
+                if caller in queue:
+                    queue.remove(caller)
+                    del caller.busNames[name]
+                return client.NAME_IN_USE
 
-                    return client.NAME_IN_QUEUE
+            if caller not in queue:
+                queue.append(caller)
+            caller.busNames[name] = allow_replacement
+
+            return client.NAME_IN_QUEUE
 
     def dbus_ReleaseName(self, name, dbusCaller=None):
         caller = self.clients[dbusCaller]
@@ -437,19 +444,23 @@ class Bus (objects.DBusObject):
         if queue is None:
             return client.NAME_NON_EXISTENT
 
-        owner = queue[0]
-
-        if caller is not owner:
+        if caller not in queue:
             return client.NAME_NOT_OWNER
 
-        del queue[0]
+        was_owner = queue[0] is caller
 
-        if caller.isConnected:
-            self.sendSignal(caller, 'NameLost', 's', name)
+        # the owner gives the name up, a waiting client leaves the queue
+        queue.remove(caller)
+        caller.busNames.pop(name, None)
 
-        if queue:
-            self.sendSignal(queue[0], 'NameAcquired', 's', name)
-        else:
+        if was_owner:
+            if caller.isConnected:
+                self.sendSignal(caller, 'NameLost', 's', name)
+
+            if queue:
+                self.sendSignal(queue[0], 'NameAcquired', 's', name)
+
+        if not queue:
             del self.busNames[name]
 
         return client.NAME_RELEASED
